@@ -105,7 +105,7 @@ def validate(module, cfg, events, batch=250, name=None, timeout=1800, jobs=None,
         v.states += r.distinct
         v.transitions += max(r.generated - 1, 0)
         for t in r.tuples("FAIL"):
-            v.add_fail(t[1], t[2])
+            v.add_fail(t[1] if len(t) == 3 else tuple(t[1:-1]), t[-1])
         for t in r.tuples("DRIFT"):
             v.drift.setdefault(t[1], []).append(t[2])
         for t in r.tuples("INFO"):
